@@ -30,6 +30,16 @@ Theorem c16_decrypt_is_cfb : forall bsz E iv ct scratch,
 Proof. exact decrypt_supported. Qed.
 Print Assumptions c16_decrypt_is_cfb.
 
+(* "byte-identical to standard CFB mode ... so a peer using a stock library interoperates":
+   std_cfb is a transcription of crypto/cipher's cfb.XORKeyStream on a fresh stream made by
+   NewCFBEncrypter / NewCFBDecrypter (tied to the real crypto/cipher by the kind-"stdlib" cases) *)
+Theorem c16_equals_stock_cfb : forall bsz E iv msg enc_scratch dec_scratch,
+  supported bsz -> bsz <= length iv -> bsz <= length enc_scratch -> 2 * bsz <= length dec_scratch ->
+  option_map data (encrypt bsz E iv (mkst msg enc_scratch)) = std_cfb bsz E false (firstn bsz iv) msg /\
+  option_map data (decrypt bsz E iv (mkst msg dec_scratch)) = std_cfb bsz E true (firstn bsz iv) msg.
+Proof. exact equals_stock_cfb. Qed.
+Print Assumptions c16_equals_stock_cfb.
+
 (* "decrypting an encrypted message with an equally keyed instance returns the original
    bytes with unchanged length" — every length, any state of either instance's scratch *)
 Theorem c16_roundtrip : forall bsz E iv msg enc_scratch dec_scratch,
